@@ -363,7 +363,8 @@ def chain_sweep(chk, chains, rnd, limit, stats, deadline):
         steps += ns
         chk.validated += 1
         for key, desc in bad:
-            chk.violation("chain:" + key, desc, {"kind": "chain", "case": c, "seed": seed, "back": back})
+            chk.violation(key if key.startswith("asarray:") else "chain:" + key, desc,
+                          {"kind": "chain", "case": c, "seed": seed, "back": back})
         if n == 0:
             chk.sample({"chain": [{k: s[k] for k in ("act", "u", "ins", "outs", "d", "cp", "st")} for s in c["hist"]],
                         "heap0": c["heap0"]})
@@ -453,7 +454,7 @@ def replay(doc):
         bad = oc.bad
     elif c["kind"] == "chain":
         skip, bad, ns = attempt_chain(c["case"], c["seed"], c["back"])
-        bad = [("chain:" + k, m) for k, m in bad]
+        bad = [(k if k.startswith("asarray:") else "chain:" + k, m) for k, m in bad]
     elif c["kind"] == "asarray":
         w = ur.build_world([c["cls"]], random.Random(c["seed"]), c["back"], dtypes={0: c["dtype"]})
         bad = judge_asarray(w.objs[0], w.raws[0], c["d"], c["cp"], c["func"], c["st"])
